@@ -29,9 +29,13 @@ def exec_SC(t):
     sc, bi, sp = frac(t[5]), frac(t[6]), t[7]
     vs = [frac(v) for v in parse_list(t[8])]
     try:
-        vals = [num(v, sp) for v in vs]
+        vals = [num(v, 'int' if sp == 'npint' else sp) for v in vs]
         v_in = vals[0] if len(vals) == 1 else vals
-        kw = dict(rounding=r, overflow=o, scale=num(sc, sp), bias=num(bi, sp))
+        if sp == 'npint' and all(v.denominator == 1 for v in vs):
+            # integer values in the narrowest NumPy integer type that holds them (scalar or array): v - bias must not wrap in that width
+            dt = next(d for d in (np.int8, np.uint8, np.int16, np.uint16, np.int32, np.int64) if all(np.iinfo(d).min <= int(v) <= np.iinfo(d).max for v in vs))
+            v_in = dt(vals[0]) if len(vals) == 1 else np.array(vals, dtype=dt)
+        kw = dict(rounding=r, overflow=o, scale=num(sc, 'int' if sp == 'npint' else sp), bias=num(bi, 'int' if sp == 'npint' else sp))
         lo, hi = lims(s, n)
         safe = all(lo + 1 <= (v - bi) / sc * 2 ** f <= hi - 1 for v in vs)     # no overflow whatever the rounding
         h = hist_of(n, f, len(vs), *[int(v * 8) % 1009 for v in vs]) % 6
@@ -92,7 +96,7 @@ def generate(tier, rng):
         bi = Fraction(rng.choice([0, 1, -1, 2, -2, 5, -7, 100, -100, 3]), 1 << rng.choice([0, 0, 1, 2]))
         if sc == 1 and bi == 0:
             bi = Fraction(-2)
-        sp = rng.choice(['int', 'float'])
+        sp = rng.choice(['int', 'float', 'npint'])
         lo, hi = lims(s, n)
         k = rng.choice([1, 1, 3])
         vs = []
@@ -106,6 +110,18 @@ def generate(tier, rng):
         if not (ok and lims_ok):
             continue
         yield 'SC %s %d %d %s %s %s %s %s %s' % ('s' if s else 'u', n, f, r, o, tok_frac(sc), tok_frac(bi), sp, V(vs))
+    # integer values at the edge of a narrow NumPy integer type with a bias of the opposite sign: v - bias leaves that type
+    for _ in range(60 if tier == 'quick' else 1500):
+        edge = rng.choice([127, -128, 255, 32767, -32768, 65535, 100, -100, 200, 30000])
+        v = edge + rng.choice([0, 0, -1, 1]) * (abs(edge) not in (127, 128, 255, 32767, 32768, 65535))
+        bi = Fraction(-1 if v > 0 else 1) * rng.choice([1, 28, 100, 200, 40000])
+        sc = Fraction(rng.choice([1, 1, 2, -1]))
+        n = rng.randint(12, 16); f = rng.choice([0, 0, 1])
+        inner = (Fraction(v) - bi) / sc
+        lo, hi = lims(True, 20)
+        if not (lo < inner * 2 ** f < hi):
+            continue
+        yield 'SC s 20 %d %s %s %s %s npint %s' % (f, rng.choice(ROUNDS), rng.choice(OVFS), tok_frac(sc), tok_frac(bi), V([Fraction(v)] * rng.choice([1, 2])))
     for _ in range(600 if tier == 'quick' else 15000):
         sc = Fraction(rng.choice([1, 2, 3, -1, 5]), 1 << rng.choice([0, 1, 2]))
         bi = Fraction(rng.choice([0, 1, -1, 4, -9]), 1 << rng.choice([0, 1]))
